@@ -98,6 +98,45 @@ def form_params(name):
     raise KeyError(name)
 
 
+UNIT_FORMS = ["bornmayer", "buck", "constant", "coul", "exponential", "exp_spline", "hbnd", "lj", "morse",
+              "polynomial", "sqrt", "zero", "buck4"]
+
+
+def rescale(name, p, e, l):
+    """the parameter vector of the same physical function in other units: energies multiplied by E = 10**e and
+    lengths by L = 10**l (eV and Angstrom -> J and m is e = -19, l = -10).  All values stay valid parameters; the
+    individual terms keep their relative sizes, so nothing may be dropped as 'negligible'."""
+    E, L = 10.0 ** e, 10.0 ** l
+    p = [float(x) for x in p]
+    if name == "bornmayer":
+        return [p[0] * E, p[1] * L]
+    if name == "buck":
+        return [p[0] * E, p[1] * L, p[2] * E * L ** 6]
+    if name == "constant":
+        return [p[0] * E]
+    if name == "coul":
+        return [p[0] * E * L, p[1]]
+    if name == "exponential":
+        return [p[0] * E * 10.0 ** (-l * p[1]), p[1]]
+    if name == "exp_spline":
+        return [p[0] + e * math.log(10.0)] + [p[i] / L ** i for i in range(1, 6)] + [p[6] * E]
+    if name == "hbnd":
+        return [p[0] * E * L ** 12, p[1] * E * L ** 10]
+    if name == "lj":
+        return [p[0] * E, p[1] * L]
+    if name == "morse":
+        return [p[0] / L, p[1] * L, p[2] * E]
+    if name == "polynomial":
+        return [c * E / L ** i for i, c in enumerate(p)]
+    if name == "sqrt":
+        return [p[0] * E * 10.0 ** (-l / 2.0)]
+    if name == "zero":
+        return []
+    if name == "buck4":
+        return [p[0] * E, p[1] * L, p[2] * E * L ** 6, p[3] * L, p[4] * L, p[5] * L]
+    raise KeyError(name)
+
+
 INT_BREAKS = [(1, 2, 3), (1, 2, 4), (1, 3, 4), (2, 3, 4), (2, 3, 5), (1, 2, 5)]
 
 BUILTIN = ["bornmayer", "buck", "constant", "coul", "exponential", "exp_spline", "hbnd",
